@@ -20,6 +20,14 @@
 //	                    Dc(i) (more than RouterDeadInterval passes at i while its live neighbours
 //	                    keep sending heartbeats, then checkDeadNeighbors). Deviations, injected in
 //	                    fixed points: LD/LU(i,j) link down/up, RD/RU(r) router stop/restart.
+//	fault <graph> d=N orders=K   every single fault in the fixed point, every order of the first N
+//	                    events, then the closing schedule (round-robin exchanges and dead checks)
+//	                    repeated under K orders of the routers; every fixed point reached is checked.
+//	                    (Count-to-infinity after a loss takes dozens of events on meshed graphs and
+//	                    its outcome depends on which neighbour withdraws first.)
+//	faultmid <graph> down=ab,..  from the fixed point of the topology without the listed links
+//	                    (routers that join later); faults and repairs in EVERY state, so that
+//	                    several topology changes reach a router between two fetches of a neighbour.
 //	faultany <graph>    (thorough) as fault, from the cold start, faults injected in every state.
 //
 // Clauses: C18.adv (every transition: no advertisement entry, on the wire or in Rib.Advert(), with
@@ -57,6 +65,7 @@ type sys struct {
 	// closureDepth > 0: the search is depth-bounded; every state first reached at that depth is
 	// driven to the fixed point by the default fair schedule (round-robin exchanges) and checked
 	closureDepth int
+	orders       int // number of router orders tried by the closure (0: ascending only)
 	closed       map[string]bool
 	expect       string // best tables of the fixed point reached by round-robin from the cold start
 }
@@ -262,46 +271,107 @@ func (y *sys) CheckState(i any) []report.Violation {
 		return nil
 	}
 	y.closed[h] = true
-	if y.expect == "" {
+	if y.expect == "" && !y.faults {
 		ref := dvsim.NewSim(y.g)
 		converge(ref)
 		y.expect = ref.Snap().BestTables()
 		l.Invalidate() // NewSim reset the global clock and task queue
 	}
-	s := l.Sim()
 	defer l.Invalidate()
-	rounds := converge(s)
-	sn := s.Snap()
 	var v []report.Violation
-	if q, why := sn.RoutingQuiescent(); !q {
-		return []report.Violation{{Clause: "C18.fix", Key: "round-robin exchanges from an explored state do not reach a fixed point within 64 rounds", Detail: why}}
-	}
 	seen := map[string]bool{}
-	for _, f := range sn.CheckShortest() {
-		if !seen[f.Clause+f.Key] {
-			seen[f.Clause+f.Key] = true
-			v = append(v, report.Violation{Clause: f.Clause, Key: f.Key, Detail: "(after " + fmt.Sprint(rounds) + " closing rounds) " + f.Detail})
+	maxRounds := 0
+	// The closing schedule is round-robin with the routers visited in a fixed order; which order
+	// matters (which neighbour withdraws first decides what a router falls back to), so
+	// configurations with orders=K repeat the closure for the first K permutations of the routers.
+	orders := [][]int{nil}
+	if y.orders > 0 {
+		orders = permutations(y.g.N, y.orders)
+	}
+	for _, order := range orders {
+		l.Invalidate()
+		s := l.Sim()
+		rounds := convergeOrder(s, order)
+		if rounds > maxRounds {
+			maxRounds = rounds
+		}
+		sn := s.Snap()
+		tag := fmt.Sprintf("(after %d closing rounds, router order %v) ", rounds, order)
+		if q, why := sn.RoutingQuiescent(); !q {
+			v = append(v, report.Violation{Clause: "C18.fix", Key: "round-robin exchanges from an explored state do not reach a fixed point within 64 rounds", Detail: tag + why})
+			break
+		}
+		for _, f := range sn.CheckShortest() {
+			if !seen[f.Clause+f.Key] {
+				seen[f.Clause+f.Key] = true
+				v = append(v, report.Violation{Clause: f.Clause, Key: f.Key, Detail: tag + f.Detail})
+			}
+		}
+		if got := sn.BestTables(); !y.faults && got != y.expect {
+			v = append(v, report.Violation{Clause: "C18.unique", Key: "different event orders end in different routing tables for the same live topology",
+				Detail: fmt.Sprintf("%sclosing rounds end in {%s}, round-robin from the cold start ends in {%s}", tag, got, y.expect)})
+		}
+		if len(v) > 0 {
+			break
 		}
 	}
-	if got := sn.BestTables(); got != y.expect {
-		v = append(v, report.Violation{Clause: "C18.unique", Key: "different event orders end in different routing tables for the same live topology",
-			Detail: fmt.Sprintf("closing rounds end in {%s}, round-robin from the cold start ends in {%s}", got, y.expect)})
-	}
-	y.trace.Closure(h, rounds)
+	y.trace.Closure(h, maxRounds)
 	return v
+}
+
+// permutations returns the first max permutations of 0..n-1 in lexicographic order.
+func permutations(n, max int) [][]int {
+	var out [][]int
+	a := make([]int, n)
+	for i := range a {
+		a[i] = i
+	}
+	for len(out) < max {
+		out = append(out, append([]int{}, a...))
+		i := n - 2
+		for i >= 0 && a[i] > a[i+1] {
+			i--
+		}
+		if i < 0 {
+			break
+		}
+		j := n - 1
+		for a[j] < a[i] {
+			j--
+		}
+		a[i], a[j] = a[j], a[i]
+		for l, r := i+1, n-1; l < r; l, r = l+1, r-1 {
+			a[l], a[r] = a[r], a[l]
+		}
+	}
+	return out
 }
 
 // converge runs round-robin exchanges to the fixed point (used as the initial state of the
 // fault configurations; convergence from the cold start under EVERY order is what the sched
 // configurations establish).
-func converge(s *dvsim.Sim) int {
-	for round := 0; round < 64; round++ {
+func converge(s *dvsim.Sim) int { return convergeOrder(s, nil) }
+
+// convergeOrder is the default fair schedule with the routers visited in the given order
+// (nil = ascending): per round, every router in turn hears each of its live neighbours in turn and
+// runs its dead-neighbour check if it lists a silent neighbour.
+func convergeOrder(s *dvsim.Sim, order []int) int {
+	if order == nil {
 		for a := 0; a < s.G.N; a++ {
-			for b := 0; b < s.G.N; b++ {
+			order = append(order, a)
+		}
+	}
+	for round := 0; round < 64; round++ {
+		for _, a := range order {
+			for _, b := range order {
 				if a != b && s.LinkLive(a, b) {
 					s.Exchange(a, b)
 					s.EndOp()
 				}
+			}
+			if s.Nodes[a].Up && s.HasSilentNeighbor(a) {
+				s.DeadCheck(a)
+				s.EndOp()
 			}
 		}
 		if q, _ := s.RoutingQuiescent(); q {
@@ -319,15 +389,30 @@ func build(cfg string) explore.System {
 	if err != nil {
 		report.Fatal("%v", err)
 	}
-	y := &sys{cfg: cfg, g: g, faults: parts[0] != "sched", faultsAnywhere: parts[0] == "faultany"}
+	fam := parts[0]
+	y := &sys{cfg: cfg, g: g, faults: fam != "sched", faultsAnywhere: fam == "faultany" || fam == "faultmid"}
 	y.trace = dvsim.NewTrace("C18", cfg)
-	var init func(*dvsim.Sim)
+	var down [][2]int
 	for _, p := range parts[2:] {
 		fmt.Sscanf(p, "d=%d", &y.closureDepth)
+		fmt.Sscanf(p, "orders=%d", &y.orders)
+		if strings.HasPrefix(p, "down=") {
+			for _, e := range strings.Split(p[5:], ",") {
+				if len(e) == 2 {
+					down = append(down, [2]int{int(e[0] - '0'), int(e[1] - '0')})
+				}
+			}
+		}
 	}
 	y.closed = map[string]bool{}
-	if parts[0] == "fault" {
-		init = func(s *dvsim.Sim) { converge(s) } // fault configurations start from the fixed point of the intact topology
+	// links listed in down= are down in the initial state (routers that join later)
+	init := func(s *dvsim.Sim) {
+		for _, e := range down {
+			s.LinkDown(e[0], e[1])
+		}
+		if fam == "fault" || fam == "faultmid" {
+			converge(s) // these families start from the fixed point of the initial topology
+		}
 	}
 	y.m = dvsim.NewMachine(g, init, applyOp)
 	y.opsCache, y.fromCache = map[string][]explore.Op{}, map[string]string{}
@@ -356,6 +441,26 @@ func configs(th bool) []explore.Config {
 		}
 	}
 	fault := func(g string, dev int) { c = append(c, explore.Config{Name: "fault " + g, MaxDepth: 400, MaxDev: dev}) }
+	// faultClosed: every single fault (dev=1) / pair of faults (dev=2) in the fixed point, every
+	// order of the first d events, then the closing schedule under `orders` router orders
+	faultClosed := func(g string, dev, d, orders int) {
+		c = append(c, explore.Config{Name: fmt.Sprintf("fault %s d=%d orders=%d", g, d, orders), MaxDepth: d, MaxDev: dev})
+	}
+	// faultMid: from the fixed point of the topology without the `down` links (routers that join
+	// later), faults and repairs in EVERY state, so that several topology changes reach a router
+	// between two fetches of the same neighbour
+	faultMid := func(g, down string, dev int) {
+		c = append(c, explore.Config{Name: fmt.Sprintf("faultmid %s down=%s", g, down), MaxDepth: 400, MaxDev: dev})
+	}
+	// 5-node graphs in which some router has >= 3 neighbours offering the same destination
+	mesh5 := []string{
+		"n5:02-03-04-12-13-14",    // K2,3: three equal-cost paths 0-{2,3,4}-1
+		"n5:01-02-03-13-23-34",    // hub 3 with leaf 4 behind a mesh 0-{1,2,3}
+		"n5:01-04-12-13-23-34",    // house: 5-ring with a chord
+		"n5:01-02-03-04-12-34",    // bow tie: two triangles sharing router 0
+		"n5:01-02-03-12-13-23-34", // K4 with a pendant router
+		"n5:01-04-12-23-34",       // 5-ring
+	}
 	var all []string
 	for n := 2; n <= 4; n++ {
 		for _, g := range dvsim.ConnectedGraphs(n) {
@@ -363,22 +468,50 @@ func configs(th bool) []explore.Config {
 		}
 	}
 	if !th {
+		// Order: configurations that finish in a second or two first (the budget is shared evenly over
+		// the configurations still to run, unused shares roll over), the large ones last.
+		line5, ring5 := dvsim.Line(5).String(), dvsim.Ring(5).String()
+		heavyFault := map[string]bool{"n4:02-03-12-13": true, "n4:01-02-03-12": true, "n4:01-02-03-12-13": true, "n4:01-02-03-12-13-23": true, ring5: true}
+		sched("n2:01", 1, 0)
+		sched("n3:01-02", 1, 0)
+		// faults from the fixed point: <= 2 fault / repair events per history
+		for _, g := range append(append([]string{}, all...), line5) {
+			if !heavyFault[g] {
+				fault(g, 2)
+			}
+		}
+		// several topology changes between two fetches of one neighbour
+		faultMid("n4:01-02-03", "03", 2) // star: leaf 3 joins while leaf 1 or 2 is lost
+		faultMid("n4:01-03-12", "12", 2) // line 3-0-1-2: router 2 joins at the far end
+		faultMid("n3:01-02-12", "12", 2) // triangle with one side missing at first
+		// Count-to-infinity after a loss takes dozens of events on meshed graphs, more than the
+		// breadth-first search reaches: single faults, every order of the first 3 events, then the
+		// closing schedule under EVERY order of the routers (which neighbour withdraws first decides
+		// what a router falls back to).
+		for _, g := range mesh5 {
+			d := 3
+			if strings.Count(g, "-")+1 >= 7 {
+				d = 2 // 12 single faults x 120 closing orders already take the share of the budget
+			}
+			faultClosed(g, 1, d, 120)
+		}
+		for _, g := range all {
+			if strings.HasPrefix(g, "n4") && strings.Count(g, "-")+1 >= 4 {
+				faultClosed(g, 1, 3, 24)
+			}
+		}
 		// Cold start, every event order. Delivery deviations (sync Interest heard, fetch parked or
 		// timed out while other events happen) multiply the state space by about the number of
 		// directed links per deviation: used on the graphs with <= 3 links.
-		for _, g := range all {
-			if e := strings.Count(g, "-") + 1; e <= 3 {
-				sched(g, 1, 0)
-			}
-		}
-		// faults from the fixed point: <= 2 fault / repair events per history
-		line5, ring5 := dvsim.Line(5).String(), dvsim.Ring(5).String()
-		for _, g := range append(append([]string{}, all...), line5, ring5) {
+		sched("n4:01-03-12", 1, 0)
+		sched("n4:01-02-03", 1, 0)
+		sched("n3:01-02-12", 1, 0)
+		sched(line5, 0, 0)
+		for _, g := range []string{"n4:02-03-12-13", "n4:01-02-03-12", "n4:01-02-03-12-13", "n4:01-02-03-12-13-23", ring5} {
 			fault(g, 2)
 		}
 		sched("n4:01-02-03-12", 0, 0) // triangle with a tail
 		sched("n4:02-03-12-13", 0, 0) // 4-cycle
-		sched(line5, 0, 0)
 		// too large for the quick tier: every order of the first d events, then the default fair
 		// schedule to the fixed point
 		sched("n4:01-02-03-12-13", 0, 6)    // diamond
@@ -405,6 +538,40 @@ func configs(th bool) []explore.Config {
 			sched(g, 1, 0)
 		}
 	}
+	// single faults, every order of the first 4 events, closing schedule under every router order
+	// (see the quick tier); every graph with a cycle
+	for _, g := range all {
+		e, n := strings.Count(g, "-")+1, int(g[1]-'0')
+		if e >= n {
+			orders := 120
+			if n == 4 {
+				orders = 24
+			} else if n == 3 {
+				orders = 6
+			}
+			faultClosed(g, 1, 4, orders)
+		}
+	}
+	for _, g := range six[1:] {
+		faultClosed(g, 1, 3, 120)
+	}
+	// the labelled meshes of the quick tier (tie-breaks depend on name hashes, so a relabelled copy
+	// of a graph is not the same experiment)
+	for _, g := range mesh5 {
+		dup := false
+		for _, a := range all {
+			dup = dup || a == g
+		}
+		if !dup {
+			faultClosed(g, 1, 4, 120)
+		}
+	}
+	faultMid("n4:01-02-03", "03", 3)
+	faultMid("n4:01-03-12", "12", 3)
+	faultMid("n3:01-02-12", "12", 3)
+	faultMid("n4:02-03-12-13", "13", 2)
+	faultMid("n5:01-12-23-34", "34", 2)
+	faultMid("n5:01-02-03-04", "04", 2)
 	for _, g := range append(append([]string{}, all...), six...) {
 		fault(g, 3)
 	}
@@ -440,8 +607,38 @@ func configs(th bool) []explore.Config {
 	return c
 }
 
+// script is a development aid: VERIF_C18_SCRIPT="<family> <graph> [opts]|op;op;..." executes the
+// operations and prints the tables after each ("CV" = run the closing schedule).
+func script(spec string) {
+	p := strings.SplitN(spec, "|", 2)
+	y := build(p[0]).(*sys)
+	l := y.m.New()
+	s := l.Sim()
+	fmt.Println("start:", s.Snap().FullTables())
+	for _, op := range strings.Split(p[1], ";") {
+		if strings.HasPrefix(op, "CV") {
+			var order []int
+			for _, c := range strings.TrimPrefix(strings.TrimPrefix(op, "CV"), ":") {
+				order = append(order, int(c-'0'))
+			}
+			fmt.Println("closing rounds:", convergeOrder(s, order))
+		} else {
+			applyOp(s, op)
+		}
+		sn := s.Snap()
+		q, why := sn.RoutingQuiescent()
+		fmt.Printf("%-8s q=%v %s\n   %s\n   %v\n", op, q, why, sn.FullTables(), sn.CheckShortest())
+	}
+}
+
 func main() {
 	debug.SetGCPercent(400)
+	if sp := os.Getenv("VERIF_C18_SCRIPT"); sp != "" {
+		if _, w := explore.IsWorker(); !w {
+			script(sp)
+			return
+		}
+	}
 	if _, w := explore.IsWorker(); !w {
 		dvsim.ResetTraceDir("C18")
 	}
@@ -464,7 +661,8 @@ func main() {
 			"equal canonical state (live topology, neighbour tables with sequence numbers as relations, RIB costs below infinity, parked fetches) implies equal futures",
 			"fault configurations start from the fixed point of the intact topology and inject faults in fixed points only (thorough adds faultany configurations: cold start, faults in every state); the number of fault/repair events per history is bounded (2 quick, 3 thorough); delivery deviations (parked / timed-out fetch) are bounded (1 quick, 2 thorough) and used on graphs with <= 3 (quick) / <= 4 (thorough) links",
 			"successor states are computed by restoring saved table contents into the live router objects and executing one operation; restores are cross-checked against plain re-execution (first 25 and every 400th per worker; a differential run with VERIF_DV_NOCACHE=1 gives identical state and transition counts)",
-			"graphs marked d=N are explored to depth N only; their remaining state space is covered by one schedule (round-robin) per frontier state",
+			"graphs marked d=N are explored to depth N only; their remaining state space is covered by one schedule (round-robin; orders=K: K round-robin schedules with the routers visited in different orders) per frontier state",
+			"topologies are enumerated up to isomorphism plus hand-labelled 5-router meshes; tie-breaks depend on name hashes, so other labellings of the same graph are different experiments that are only partly covered by varying the closing order",
 		},
 		Extra: func(rep *report.Reporter, cov report.Coverage) {
 			dvsim.AnalyseC18(rep, cov)
